@@ -702,11 +702,11 @@ mutual
     | .ite c t none => .ite c (stripB t) none
     | .ite c t (some e) => .ite c (stripB t) (some (stripB e))
     | .repeat_ h body => .repeat_ h (stripB body)
-    | .action k ops => .action k (stripOps ops)
+    | .action k w ops => .action k w (stripOps ops)
     | .setReg r v => .setReg r v
     | .units m => .units m
     | .actAll k => .actAll k
-    | .setDefault => .setDefault
+    | .setDefault w => .setDefault w
     | .get v => .get v
     | .wait => .wait
     | .timeAt ps => .timeAt ps
@@ -818,18 +818,19 @@ mutual
     | .setReg r v, il, im, h, hf => mloc_leaf (by rw [stripS]) h hf
     | .units m, il, im, h, hf => mloc_leaf (by rw [stripS]) h hf
     | .actAll k, il, im, h, hf => mloc_leaf (by rw [stripS]) h hf
-    | .setDefault, il, im, h, hf => mloc_leaf (by rw [stripS]) h hf
-    | .action k ops, il, im, h, hf => by
+    | .setDefault w, il, im, h, hf => mloc_leaf (by rw [stripS]) h hf
+    | .action k w ops, il, im, h, hf => by
       have ho : Closed.wsOperands K false im ops = true := by simpa [Closed.wsStmt] using h
       simp only [stripS, FragStmt] at hf
       have hc := Closed.closed_operands k ops false im ho ⟨[], im⟩ ⟨rfl, rfl⟩ il (none, ⟨[], im⟩)
       have hpre : ∀ (P : List Instr), P.all Instr.plainI = true →
           (∀ x ∈ P, ∀ c off, x ≠ Instr.jump c off) →
-          mloc (ins P ++ ins [Instr.wait] ++ genOperands k ops) =
-            ins P ++ ins [Instr.wait] ++ genOperands k (stripOps ops) := by
+          mloc (ins P ++ ins (if w = true then [Instr.wait] else []) ++ genOperands k ops) =
+            ins P ++ ins (if w = true then [Instr.wait] else []) ++ genOperands k (stripOps ops) := by
         intro P h1 h2
         obtain ⟨a1, a2, a3⟩ := piece_nojump P h1 h2
-        obtain ⟨b1, b2, b3⟩ := piece_nojump [Instr.wait] rfl (by simp)
+        obtain ⟨b1, b2, b3⟩ := piece_nojump (if w = true then [Instr.wait] else [])
+          (by cases w <;> rfl) (by cases w <;> simp)
         rw [mloc_append3 a1 a2 b1 b2 (jc_of_closed hc), a3, b3, mloc_operands k ops im ho hf]
       cases k
       · rw [genStmt, stripS, genStmt]; exact hpre _ rfl (by simp)
